@@ -67,6 +67,33 @@ func c07(args []string) {
 			}
 		}
 	}
+	// (b2) a rendezvous group whose first member started early, separated from the other members by short
+	// tasks of the same process that have already finished: the free slots must be used for the waiting members
+	for _, max := range []int{3, 4, 6} {
+		for r := 0; r < c.Pick(1, 4); r++ {
+			k := max
+			nfast := max - 1
+			s := &spec.Spec{Name: fmt.Sprintf("rvgap_m%d", max), MaxTasks: max, Sources: map[string]string{}}
+			src := &spec.Proc{Name: "src", Kind: spec.KFileSource}
+			bh := vproto.Behaviours{}
+			total := 1 + nfast + (k - 1)
+			for i := 0; i < total; i++ {
+				f := fmt.Sprintf("g%02d.txt", i)
+				src.Files = append(src.Files, f)
+				s.Sources[f] = f
+				key := vproto.TaskKey("rvp", []vproto.KV{{K: "in", V: f}}, nil, nil)
+				if i == 0 || i > nfast {
+					bh[key] = map[string]string{"rv": fmt.Sprintf("%d:g", k), "rvto": "8000"}
+				} else {
+					bh[key] = map[string]string{"sleep": "5"}
+				}
+			}
+			s.Procs = append(s.Procs, src, &spec.Proc{Name: "rvp", Kind: spec.KCmd, Cores: 1,
+				Cmd: spec.BuildCmd("rvp", []spec.PortDecl{{Name: "in"}}, []spec.PortDecl{{Name: "out"}}, nil, nil, nil)})
+			s.Conns = append(s.Conns, &spec.Conn{From: "src.out", To: "rvp.in"})
+			jobs = append(jobs, &job{s: s, bh: bh, cfg: Cfg{Buf: 128, Procs: []int{1, 2, 8}[r%3]}, kind: "rendezvous", k: k, cores: 1})
+		}
+	}
 	// (c) oversize cores
 	for _, max := range []int{1, 2, 4} {
 		for _, extra := range []int{1, 3} {
@@ -168,6 +195,26 @@ func c07(args []string) {
 					if !acquired[t] {
 						waiting++
 					}
+				}
+				// all inputs of the process were delivered (its in-port channel is closed) and slots are free, yet
+				// members of the group were never started
+				delivered := false
+				started := 0
+				for _, e := range res.Events {
+					if e.T > toT {
+						break
+					}
+					if e.Pt == "inport.chan_closed" && e.Who == "in" {
+						delivered = true
+					}
+					if e.Pt == "task.cmd_start" {
+						started++
+					}
+				}
+				if total := len(j.s.Procs[0].Files); waiting == 0 && delivered && held+j.cores <= j.s.MaxTasks && started < total {
+					c.Violation("not-work-conserving:ready-tasks-not-started", fmt.Sprintf("all inputs were delivered and only %d of %d slots were held, yet only %d of %d ready tasks had been started when the first member of the group gave up waiting", held, j.s.MaxTasks, started, total),
+						map[string]interface{}{"spec": j.s, "cfg": j.cfg, "behav": j.bh, "held": held})
+					return
 				}
 				if waiting > 0 && held+j.cores <= j.s.MaxTasks {
 					c.Violation("not-work-conserving", fmt.Sprintf("%d task(s) of %d cores were waiting for slots while only %d of %d slots were held; %d of %d tasks never met inside their commands", waiting, j.cores, held, j.s.MaxTasks, to, j.k),
